@@ -120,6 +120,10 @@ SPECIAL = [
     (5, (6, 3, 1, 1, 0, 0, 0, 0, 0, 0), (2, 1, 1, 1, 1), 1, 1, "ISSSS"),
     (4, (1, 1, 1, 1, 1, 1), (5, 3, 1, 1), 0, 1, "IIII"),
     (4, (1, 1, 1, 1, 1, 1), (5, 3, 1, 1), 1, 2, "IIIS"),
+    # a node of recovery weight 0 never recovers but keeps transmitting (path 1-2-3, the middle node has weight 0)
+    (3, (1, 0, 1), (1, 0, 1), 2, 2, "SIS"),
+    (3, (1, 0, 1), (1, 0, 1), 2, 2, "ISS"),
+    (3, (2, 0, 1), (0, 1, 1), 1, 2, "ISS"),
 ]
 
 
@@ -128,17 +132,20 @@ def special_part(chk, sis, entry):
     sg = netepi.SpecGraph(5)
     tasks = []
     for (n, w, g, tau, gam, st0) in SPECIAL:
+        key = (tuple(w), tuple(g), tau, gam)
+        t = {"key": key, "st0": tuple(st0), "sis": sis, "weighted": True, "max_leaves": 200000}
+        if sis:
+            t["horizon"] = 4 if n >= 5 else 5
+        if key in sg.trans:
+            tasks.append(t)
+            continue
         trans, res = master.emit_one(n, w, g, tau, gam, sis)
         chk.add_tlc("NetEpiOne: hand-picked weighted scenario n=%d w=%r g=%r" % (n, w, g), res)
-        key = (tuple(w), tuple(g), tau, gam)
         d = sg.trans.setdefault(key, {})
         # emit_one returns (st2, real rate); the walk wants (kind, u, v, rate numerator, st2): re-read the records
         for rec in res.printed("E"):
             _, w_, g_, t_, ga_, st, st2, ev = rec
             d.setdefault(tuple(st), []).append((ev[0], ev[1], ev[2], ev[3], tuple(st2)))
-        t = {"key": key, "st0": tuple(st0), "sis": sis, "weighted": True, "max_leaves": 200000}
-        if sis:
-            t["horizon"] = 4 if n >= 5 else 5
         tasks.append(t)
     b1.SG = sg
     for t, r in zip(tasks, pool_map(b1.run_scenario, tasks)):
